@@ -352,8 +352,8 @@ class RB(object):
         return max(ks) if ks else None
 
     def width(self):
-        m, e = _dadd_exact(self.bm, self.be, -self.am, self.ae)
-        return m, e
+        """an upper bound (64 significant bits, rounded up) of hi - lo"""
+        return _dadd(self.bm, self.be, -self.am, self.ae, 64, True)
 
     def rel_width_bits(self):
         """floor-ish number of correct leading bits: log2(min|x| / width); inf for a point, -1 if it contains 0
